@@ -1,9 +1,9 @@
 SPECIFICATION Spec
 CONSTANTS
   Prods = {"ulc", "ntag", "ev1", "n203"}
-  KeyParts = {"k0", "kA", "kB"}
+  KeyParts = {"k0", "kA"}
   Variants = {"a"}
-  PFs = {0, 4, 300}
+  PFs = {0, 300}
   MaxOps = 2
   MaxAdv = 1
   MaxCut = 1
@@ -26,4 +26,5 @@ INVARIANT LockSound
 INVARIANT FormatSound
 INVARIANT Confined
 PROPERTY OneWay
+CONSTRAINT SecondOpSmall
 CHECK_DEADLOCK FALSE
